@@ -666,13 +666,7 @@ impl JobServerHandle {
     where
         F: FnOnce() -> i32,
     {
-        {
-            let mut state = self.state.borrow_mut();
-            assert_eq!(state.my_tokens, 1);
-            // Subprocesses always start with 1 token, so we have to destroy ours
-            // in order for the universe to stay in balance.
-            state.destroy_tokens(1);
-        }
+        assert_eq!(self.state.borrow().my_tokens, 1);
         let (r, w) = make_pipe(50).map_err(RedoError::opaque_error)?;
         match unsafe { unistd::fork() }.map_err(RedoError::opaque_error)? {
             ForkResult::Child => {
@@ -685,6 +679,11 @@ impl JobServerHandle {
                 process::exit(rv);
             }
             ForkResult::Parent { child: pid } => {
+                // Subprocesses always start with 1 token, so we have to destroy ours
+                // in order for the universe to stay in balance.  (Only now that the
+                // child exists: had the pipe or the fork failed, the token would
+                // have been lost, nobody being there to give it back.)
+                self.state.borrow_mut().destroy_tokens(1);
                 helpers::close_on_exec(r, true).map_err(RedoError::opaque_error)?;
                 unistd::close(w).map_err(RedoError::opaque_error)?;
                 let job_state = Rc::new(RefCell::new(JobState::default()));
